@@ -7,6 +7,7 @@ import (
 	"strings"
 
 	"verifharness/internal/apphist"
+	"verifharness/internal/appmon"
 	"verifharness/internal/common"
 )
 
@@ -116,6 +117,9 @@ func replicaChecks(res *common.Result, cfg Config, work string, s *apphist.Sim) 
 			res.Count("monitor:C06.quiet-replica")
 		}
 	}
+	if cfg.Prop == "C05" {
+		failedOmittedCheck(res, lines, s, run)
+	}
 	if want("C07") && s.EverRestarted {
 		cont := filterLines(lines, func(k string) bool { return k == "restart" })
 		if b := run("c07", cont); b != nil {
@@ -149,6 +153,88 @@ func replicaChecks(res *common.Result, cfg Config, work string, s *apphist.Sim) 
 			res.Count("monitor:C07.continuous-replica")
 		}
 	}
+}
+
+// failedOmittedCheck (C05, "later transactions observe the unchanged state"): a replica is fed the same history
+// WITHOUT the deliveries that failed on the primary; every remaining consensus result and every state dump
+// (empty account records identified with absent ones; app hashes not compared: an empty record created by a
+// failed transaction is hashed) must be the same.
+//
+// Two replicas: one without ANY failed delivery, one without the FIRST failed delivery of every block (the other
+// failed deliveries stay and must fail in the same way: a transaction that fails only because an earlier failed
+// one left a trace is itself a failed delivery and would be dropped by the first replica).
+func failedOmittedCheck(res *common.Result, lines []string, s *apphist.Sim, run func(string, []string) *apphist.Sim) {
+	if failedOmitted(res, lines, s, run, false) {
+		return
+	}
+	failedOmitted(res, lines, s, run, true)
+}
+
+func failedOmitted(res *common.Result, lines []string, s *apphist.Sim, run func(string, []string) *apphist.Sim, firstOnly bool) bool {
+	var keptLines []string
+	var prim []*apphist.Rec
+	dropped := 0
+	li := 0
+	droppedInBlock := false
+	for _, r := range s.Recs {
+		hasLine := r.Kind != "dump"
+		if r.Kind == "begin" {
+			droppedInBlock = false
+		}
+		failed := r.Kind == "tx" && r.Mode == "d" && !strings.HasPrefix(r.Out, "code=0 ")
+		if failed && firstOnly && droppedInBlock {
+			failed = false
+		}
+		if failed {
+			droppedInBlock = true
+			dropped++
+		} else {
+			prim = append(prim, r)
+			if hasLine && li < len(lines) {
+				keptLines = append(keptLines, lines[li])
+			}
+		}
+		if hasLine {
+			li++
+		}
+	}
+	if dropped == 0 || li != len(lines) {
+		return false
+	}
+	b := run("c05", keptLines)
+	if b == nil {
+		return false
+	}
+	cons := func(r *apphist.Rec) bool { return r.Kind != "query" && !(r.Kind == "tx" && r.Mode == "c") }
+	pa, pb := consensusRecs(prim, cons), consensusRecs(b.Recs, cons)
+	res.Count("monitor:C05.failed-omitted-replica")
+	n := min(len(pa), len(pb))
+	for i := 0; i < n; i++ {
+		oa, ob := pa[i].Out, pb[i].Out
+		if pa[i].Kind == "dump" {
+			oa, ob = appmon.NonEmptyDump(oa), appmon.NonEmptyDump(ob)
+		}
+		if oa != ob {
+			// the EVM block gas pool is consumed by failed calls too: a later contract transaction may run out of
+			// block gas only in the presence of the failed one (a block limit, not state)
+			if strings.Contains(oa, "gas limit reached") || strings.Contains(ob, "gas limit reached") || strings.Contains(pa[i].Note, "gas limit reached") {
+				return false
+			}
+			d := fmt.Sprintf("op %d `%s`: %s vs %s", i, short(pa[i].Line, 160), short(oa, 200), short(ob, 200))
+			if pa[i].Kind == "dump" {
+				d = fmt.Sprintf("op %d state dump: %s", i, firstDiff(oa, ob))
+			}
+			res.Violations = append(res.Violations, common.Violation{Property: "C05", Kind: "failed-tx-visible-later",
+				Detail: fmt.Sprintf("a node that was fed the history without its %d failed deliveries differs at %s", dropped, d), Ops: lines})
+			return true
+		}
+	}
+	if len(pa) != len(pb) {
+		res.Violations = append(res.Violations, common.Violation{Property: "C05", Kind: "failed-tx-visible-later",
+			Detail: fmt.Sprintf("different number of operations executed without the failed deliveries: %d vs %d", len(pa), len(pb)), Ops: lines})
+		return true
+	}
+	return false
 }
 
 func min(a, b int) int {
